@@ -107,6 +107,34 @@ def detect_stage(run, count, what):
     run.add_traces(summ["evaluations"], r, what)
 
 
+def apalache_stage(run):
+    """Unbounded check of the handle's integer core with Apalache (symbolic): IndInv of spec/XtInputCore.tla is
+    inductive for every stream length, buffer size, size hint and short-read pattern."""
+    import shutil as _sh
+    out = os.path.join(WORK, "apalache-%s" % run.pid)
+    _sh.rmtree(out, ignore_errors=True)
+    results = []
+    for args, what in ((["--init=Init", "--length=0"], "Init => IndInv"), (["--init=IndInit", "--length=1"], "IndInv /\\ Next => IndInv'")):
+        try:
+            p = common.sh(["timeout", "600", "apalache-mc", "check", "--cinit=ConstInit", "--inv=IndInv", "--out-dir=" + out] + args + [os.path.join(common.SPEC, "XtInputCore.tla")],
+                          timeout=700, cwd=WORK)
+        except Exception as e:  # noqa: the symbolic check is an extra; its absence is reported, not fatal
+            run.stages.append({"stage": "apalache", "what": what, "skipped": str(e)[:200]})
+            return
+        text = p.stdout.decode("utf-8", "replace")
+        if "The outcome is: NoError" in text:
+            results.append(what)
+        elif "The outcome is: Error" in text:
+            run.violation("XtInputCore: the handle invariant is not inductive (%s): design-level counterexample from Apalache" % what, {"kind": "apalache", "output_tail": text[-2500:]})
+            return
+        else:
+            run.stages.append({"stage": "apalache", "what": what, "skipped": "no verdict: " + text[-300:]})
+            return
+    run.stages.append({"stage": "apalache", "what": "XtInputCore!IndInv inductive for unbounded N, buffer sizes and size hints", "obligations": results})
+    run.checker_cmds.append("apalache-mc check --cinit=ConstInit --init=IndInit --inv=IndInv --length=1 spec/XtInputCore.tla")
+    _sh.rmtree(out, ignore_errors=True)
+
+
 def c09(run):
     run.rule = ("XtInput: each case is one maximal path of handle operations (borrow / read(b) with the source returning k / "
                 "prefix(n) / into_input / into_cow / owned reads) over the TLC-exported transition relation, for every stream "
@@ -117,6 +145,7 @@ def c09(run):
         "byte values are irrelevant to the handle: the stream is 1,2,..,n",
     ]
     stage_input(run)
+    apalache_stage(run)
     detect_stage(run, _q(run, 60, 1500), "detection under slice + 5 reader schedules + a read fault, for generated, mutated, truncated inputs and xt's own output; translate(None) vs translate(Some(answer))")
     run.exhaustive = True
 
@@ -236,6 +265,17 @@ def obs_stage(run, scenario, count, rules, what):
                 pass
 
 
+def pipeline_stage(run):
+    """XtPipeline: the design-level streaming model; TLC checks the lag bound for every packetisation,
+    ordered complete output, fault handling, termination, and that every step refines XtObs."""
+    mc = run_tlc("MC_XtPipeline.tla", _q(run, "MC_XtPipeline.cfg", "MC_XtPipeline_thorough.cfg"), workers=8)
+    check_vacuity(mc, ["SourceRead", "DetectDone", "WriteDoc", "FailEnd", "Finish"])
+    if mc["violated"] is None and ("Temporal properties were violated" in mc["out"] or "is violated" in mc["out"]):
+        mc["violated"] = "temporal property (Refines / Terminates / EventuallyAll)"
+    run.add_mc(mc, "XtPipeline: PInv (lag <= 2 for every packetisation, all documents written, faults are errors), refinement of XtObs, termination under weak fairness; "
+                   "3 source formats x detection on/off x stream shapes x packet sizes x one read and one write fault")
+
+
 OBS_ASSUME = [
     "document boundaries and frames are computed by the harness: a frame is xt's own translation of the document taken alone (the property's oracle); value fidelity of a single translation is C01's business",
     "harness reader/writer honour the Read/Write contracts except where a fault or over-report is injected on purpose",
@@ -247,6 +287,7 @@ def c02(run):
                 "cases sharing bytes+formats share a key and TLC requires equal verdicts, byte-identical output on success and prefix-comparable "
                 "output on failure (XtObs!End/Agrees); non-trivial = multi-document or mutated input; distinct by bytes, formats and schedule")
     run.assumptions += OBS_ASSUME
+    pipeline_stage(run)
     obs_stage(run, "witnesses,boundaries,streams", _q(run, 25, 400), ["C02"], "generated single/multi-document streams of every format x 4 targets x explicit/detected x slice + 7 read schedules")
     obs_stage(run, "encodings", _q(run, 6, 100), ["C02"], "YAML text in UTF-8/16/32 (LE/BE, +-BOM) x slice + 6 read schedules incl. cuts inside code units")
     obs_stage(run, "unknown", _q(run, 300, 6000), ["C02"], "mutated/truncated/spliced inputs x 3 source selections x slice + 4 read schedules")
@@ -257,8 +298,12 @@ def c03(run):
                 "stream; TLC requires every accepted byte to extend the concatenation of the solo translations, whole frames in order, and End(ok) only "
                 "with every document written (XtObs!ObsWrite/End); non-trivial = >= 2 documents or calls")
     run.assumptions += OBS_ASSUME
+    pipeline_stage(run)
     obs_stage(run, "witnesses,boundaries,streams", _q(run, 25, 400), ["C03"], "multi-document streams (0..24 documents, all legal separators, documents padded to 8/16 KiB boundaries)")
     obs_stage(run, "histories", _q(run, 400, 8000), ["C03"], "histories of 1-4 calls in mixed formats and supply modes on one Translator")
+    # one command-line invocation with several inputs in different formats: stdout = the concatenation
+    cli_stage(run, _q(run, "MC_XtCli_c03.cfg", "MC_XtCli_c03_thorough.cfg"), "several inputs in mixed formats on one command line: stdout is the ordered concatenation of the library translations",
+              tty_maxlen=0, file_maxlen=0)
 
 
 def c05(run):
@@ -266,6 +311,7 @@ def c05(run):
                 "document, half documents, single bytes, random); at every read request TLC requires delivered - written <= 2 (XtObs!ObsRead); "
                 "distinct by stream, target, schedule and source selection")
     run.assumptions += OBS_ASSUME
+    pipeline_stage(run)
     obs_stage(run, "lag", _q(run, 9, 150), ["C05"], "bounded lag at every read request, 3 streaming sources x 3 targets x 6 packetisations x explicit/detected")
     # memory half: measured peak heap growth, N vs 4N documents, judged by spec/XtMem.tla
     path = os.path.join(WORK, "trace_C05_mem_%s.ndjson" % run.tier)
@@ -286,6 +332,7 @@ def c08(run):
     run.rule = ("each case = a history of calls on a TOML-target Translator; TLC requires at most one frame ever, nothing written for a refused or second "
                 "document, End(ok) only for the first clean document (XtObs rules C08)")
     run.assumptions += OBS_ASSUME
+    pipeline_stage(run)
     obs_stage(run, "toml", _q(run, 600, 10000), ["C08"], "TOML target: every root kind, refusals at every nesting position, 1-3 calls, four sources, slice and reader")
 
 
@@ -294,6 +341,7 @@ def c12(run):
                 "the fault-free output), or a short-write pattern; TLC requires End(err) once a fault was hit, the reader's text in the message, accepted "
                 "bytes a prefix of the fault-free output, whole fault-free frames in order (XtObs rules C12)")
     run.assumptions += OBS_ASSUME + ["faults are persistent and of a kind other than Interrupted (which std retries by contract)"]
+    pipeline_stage(run)
     obs_stage(run, "faults", _q(run, 8, 120), ["C12"], "reader fault at every input offset, writer fault at every output offset, short writes; 4 sources x 4 targets")
 
 
@@ -622,6 +670,12 @@ def c04(run):
 def cli_stage(run, cfg, what, tty_maxlen=2, file_maxlen=2, extra_vectors=(), stdin_content=None, failing_stdout=False, required=None):
     import clicheck, cli
     root = clicheck.prepare("%s-%s" % (run.pid, run.tier))
+    # one directory of files per worker thread (a FIFO operand cannot be shared by concurrent runs)
+    import queue
+    roots = queue.Queue()
+    all_roots = [root] + [clicheck.prepare("%s-%s-w%d" % (run.pid, run.tier, w)) for w in range(1, 12)]
+    for r_ in all_roots:
+        roots.put(r_)
     table = clicheck.lib_table(root)
     clicheck.write_clilib(table, os.path.join(common.SPEC, "CliLib.tla"), extra_vectors)
     mc = run_tlc("MC_XtCli.tla", cfg, workers=8)
@@ -669,12 +723,16 @@ def cli_stage(run, cfg, what, tty_maxlen=2, file_maxlen=2, extra_vectors=(), std
 
     def one(job):
         pred, kind, binary = job
-        if kind == "full":
-            real = clicheck.run_full(binary, pred["argv"], root, stdin_bytes)
-        elif kind.startswith("closed:"):
-            real = clicheck.run_closed(binary, pred["argv"], root, stdin_bytes, int(kind.split(":")[1]))
-        else:
-            real = clicheck.run_real(binary, pred["argv"], root, kind, stdin_bytes)
+        myroot = roots.get()
+        try:
+            if kind == "full":
+                real = clicheck.run_full(binary, pred["argv"], myroot, stdin_bytes)
+            elif kind.startswith("closed:"):
+                real = clicheck.run_closed(binary, pred["argv"], myroot, stdin_bytes, int(kind.split(":")[1]))
+            else:
+                real = clicheck.run_real(binary, pred["argv"], myroot, kind, stdin_bytes)
+        finally:
+            roots.put(myroot)
         return pred, kind, binary, clicheck.judge(pred, real, table), real
     results = cli.pmap(one, jobs, workers=12)
     nontrivial = set()
@@ -690,7 +748,8 @@ def cli_stage(run, cfg, what, tty_maxlen=2, file_maxlen=2, extra_vectors=(), std
     run.samples += [{"argv": r["argv"], "stdout": r["stdout"], "predicted": {k: r[k] for k in ("exit", "text", "stderr", "errpath", "done")}} for r in runs[len(runs) // 2:len(runs) // 2 + 3]]
     run.stages.append({"stage": "replay", "what": "argument vectors exported by TLC executed on the real binaries", "runs": len(results), "distinct_argv": len(runs)})
     run.traces += len(results)
-    shutil_rm(root)
+    for r_ in all_roots:
+        shutil_rm(r_)
 
 
 def all_inputs(r, clicheck):
@@ -783,6 +842,28 @@ def c16(run):
 
 # ----------------------------------------------------------------------------- C17
 
+def asan_stage(run):
+    """Substrate under the C17 recorder: the same recorder built with AddressSanitizer (nightly toolchain,
+    runtime present offline).  A sanitizer report or a crash is an observation ("MemFault") that no action
+    of XtChunker matches; it is reported as a violation.  Not a TLA+ decision: see DESIGN.md section 10."""
+    env = common.offline_env({"RUSTFLAGS": "-Zsanitizer=address --cfg xt_verif --check-cfg cfg(xt_verif)",
+                              "CARGO_TARGET_DIR": os.path.join(WORK, "asan-target"), "ASAN_OPTIONS": "detect_leaks=1:abort_on_error=0"})
+    b = common.sh(["cargo", "+nightly", "build", "--release", "--target", "x86_64-unknown-linux-gnu", "--config", "build.rustflags=[]"],
+                  cwd=common.HARNESS, env=env, timeout=2400)
+    if b.returncode != 0:
+        run.stages.append({"stage": "asan", "what": "AddressSanitizer build of the harness failed; substrate skipped", "stderr": b.stderr.decode("utf-8", "replace")[-500:]})
+        return
+    exe = os.path.join(WORK, "asan-target", "x86_64-unknown-linux-gnu", "release", "xtv")
+    path = os.path.join(WORK, "trace_C17_asan.ndjson")
+    p = common.sh([exe, "record-chunker", path, "15"], env=env, timeout=2400, cwd=WORK)
+    err = p.stderr.decode("utf-8", "replace")
+    ok = p.returncode == 0 and "AddressSanitizer" not in err and "LeakSanitizer" not in err
+    run.stages.append({"stage": "asan", "what": "record-chunker under AddressSanitizer/LeakSanitizer", "clean": ok, "status": p.returncode})
+    if not ok:
+        run.violation("AddressSanitizer/LeakSanitizer reported a memory fault (or the recorder died, status %s) while driving the YAML binding: %s" % (p.returncode, err[-1200:]),
+                      {"kind": "memfault", "status": p.returncode, "report_tail": err[-3000:]})
+
+
 def c17(run):
     import subprocess
     run.rule = ("each case = one YAML run of the real code (generated, mutated, re-encoded and large multi-byte inputs; slice / reader with several read sizes; explicit and "
@@ -835,6 +916,8 @@ def c17(run):
         write_lines(nxt, lines[:start - 1] + lines[end:])
         cur = nxt
     run.add_traces(summ["evaluations"], r, "lifecycle, read-handler and cut events of real YAML runs")
+    if run.tier == "thorough" or os.environ.get("XT_ASAN") == "1":
+        asan_stage(run)
     run.assumptions += ["protocol level only: what crosses the binding (pairing, order, bounds of copies and cuts); accesses inside unsafe-libyaml are outside the specification",
                         "libyaml's marks lie within the bytes it has been given (checked on every recorded cut)"]
 
